@@ -1,11 +1,135 @@
-/- Driver ops for C08. -/
+/- Driver ops for C08 (fit statistics and evidence).
+   Rational outputs (maps, chi-squared, regularization term, reduced matrices) are evaluated on `Rat`
+   (exact); outputs containing `log` are evaluated on `Float` with `Float.log`, `2π` and a pivot-product
+   log-determinant standing in for numpy's Cholesky / SuperLU. -/
 import Driver.Loop
+import Model.Fit
 
 open Lean Model
+open Model.Impl.Fit
 
 namespace Driver.C08
 
-def ops : List (String × Op) := []
+def twoPiF : Float := 2.0 * 3.141592653589793
+
+/-- log-determinant of a symmetric positive-definite matrix: sum of the logs of the pivots of
+    Gaussian elimination without pivoting (= 2·Σ log diag(chol A)).  Driver-side instantiation of the
+    model's `logDet` parameter. -/
+def logDetF (M : List (List Float)) : Float := Id.run do
+  let n := M.length
+  let mut a : Array (Array Float) := (M.map (·.toArray)).toArray
+  let mut acc : Float := 0.0
+  for k in [0:n] do
+    let rowk := a[k]!
+    let p := rowk[k]!
+    acc := acc + Float.log p
+    for i in [k+1:n] do
+      let rowi := a[i]!
+      let f := rowi[k]! / p
+      let mut r := rowi
+      for j in [k:n] do
+        r := r.set! j (rowi[j]! - f * rowk[j]!)
+      a := a.set! i r
+  return acc
+
+def getObj (j : Json) : Except String (LinObj Rat) := do
+  let p ← getNat (← field j "params")
+  let r := fieldD j "reg" Json.null
+  match r with
+  | Json.null => pure { params := p, reg := none }
+  | m => pure { params := p, reg := some (← getRatMat m) }
+
+def objToFloat (o : LinObj Rat) : LinObj Float :=
+  { params := o.params, reg := o.reg.map fun m => m.map fun r => r.map ratToFloat }
+
+def floatMatToJson (m : List (List Float)) : Json := listToJson floatsToJson m
+
+def fit : Op := fun j => do
+  let useMask ← getBool (← field j "use_mask")
+  let imaging ← getBool (← field j "imaging")
+  let bitsS ← getStr (← field j "bits")
+  let bits := bitsS.toList.map (· == '1')
+  let data ← getRats (← field j "data")
+  let noise ← getRats (← field j "noise")
+  let model ← getRats (← field j "model")
+  let bg ← getRat (fieldD j "background" (Json.str "0"))
+  let n := if useMask then bits.length else (bits.filter (!·)).length
+  if data.length ≠ n || noise.length ≠ n || model.length ≠ n then throw "shape_mismatch"
+  let f : FitInput Rat :=
+    { useMask := useMask, isImaging := imaging, bits := bits, data := data, noise := noise,
+      model := model, background := bg }
+  let ff : FitInput Float :=
+    { useMask := useMask, isImaging := imaging, bits := bits, data := data.map ratToFloat,
+      noise := noise.map ratToFloat, model := model.map ratToFloat, background := ratToFloat bg }
+  let base : List (String × Json) :=
+    [("data", ratsToJson (fitData f)),
+     ("residual_map", ratsToJson (fitResidualMap f)),
+     ("normalized_residual_map", ratsToJson (fitNormalizedResidualMap f)),
+     ("chi_squared_map", ratsToJson (fitChiSquaredMap f)),
+     ("residual_flux_fraction_map", ratsToJson (fitResidualFluxFractionMap f)),
+     ("signal_to_noise_map", ratsToJson (fitSignalToNoiseMap f)),
+     ("chi_squared", ratToJson (fitChiSquared f)),
+     ("reduced_chi_squared", ratToJson (fitReducedChiSquared f)),
+     ("noise_normalization", floatToJson (fitNoiseNormalization Float.log twoPiF ff)),
+     ("log_likelihood", floatToJson (fitLogLikelihood Float.log twoPiF ff))]
+  let invJ := fieldD j "inversion" Json.null
+  match invJ with
+  | Json.null =>
+    let none' : Option (InvTerms Float) := none
+    pure (obj (base ++
+      [("figure_of_merit", floatToJson (fitFigureOfMerit Float.log twoPiF ff none')),
+       ("log_evidence", optToJson floatToJson (fitLogEvidence Float.log twoPiF ff none')),
+       ("log_likelihood_with_regularization",
+          optToJson floatToJson (fitLogLikelihoodWithRegularization Float.log twoPiF ff none')),
+       ("inversion", Json.null)]))
+  | ij =>
+    match fieldD ij "terms" Json.null with
+    | Json.null => pure ()
+    | tj =>
+      -- the three scalars are supplied directly (a mock inversion): only the fit-level composition runs
+      let tF : InvTerms Float :=
+        { regularizationTerm := ← getFloat (← field tj "regularization_term")
+          logDetCurvatureReg := ← getFloat (← field tj "log_det_curvature_reg_matrix_term")
+          logDetRegularization := ← getFloat (← field tj "log_det_regularization_matrix_term") }
+      return obj (base ++
+        [("figure_of_merit", floatToJson (fitFigureOfMerit Float.log twoPiF ff (some tF))),
+         ("log_evidence", optToJson floatToJson (fitLogEvidence Float.log twoPiF ff (some tF))),
+         ("log_likelihood_with_regularization",
+            optToJson floatToJson (fitLogLikelihoodWithRegularization Float.log twoPiF ff (some tF))),
+         ("inversion", obj
+           [("regularization_term", floatToJson tF.regularizationTerm),
+            ("log_det_curvature_reg_matrix_term", floatToJson tF.logDetCurvatureReg),
+            ("log_det_regularization_matrix_term", floatToJson tF.logDetRegularization)])])
+    let objs ← getList getObj (← field ij "objs")
+    let F ← getRatMat (← field ij "F")
+    let s ← getRats (← field ij "s")
+    let tp := totalParams objs
+    if F.length ≠ tp || s.length ≠ tp || F.any (·.length ≠ tp) then throw "shape_mismatch"
+    if objs.any (fun o => match o.reg with
+        | some m => m.length ≠ o.params || m.any (·.length ≠ o.params)
+        | none => false) then throw "shape_mismatch"
+    let objsF := objs.map objToFloat
+    let FF := F.map fun r => r.map ratToFloat
+    let sF := s.map ratToFloat
+    let tF : InvTerms Float := invTerms logDetF FF sF objsF
+    let invOut := obj
+      [("no_regularization_index_list", natsToJson (noRegularizationIndexList objs)),
+       ("regularization_matrix", ratMatToJson (regularizationMatrix objs)),
+       ("regularization_matrix_reduced", ratMatToJson (regularizationMatrixReduced objs)),
+       ("curvature_reg_matrix", ratMatToJson (curvatureRegMatrix F objs)),
+       ("curvature_reg_matrix_reduced", ratMatToJson (curvatureRegMatrixReduced F objs)),
+       ("reconstruction_reduced", ratsToJson (reconstructionReduced s objs)),
+       ("regularization_term", ratToJson (regularizationTerm s objs)),
+       ("log_det_curvature_reg_matrix_term", floatToJson tF.logDetCurvatureReg),
+       ("log_det_regularization_matrix_term", floatToJson tF.logDetRegularization)]
+    pure (obj (base ++
+      [("figure_of_merit", floatToJson (fitFigureOfMerit Float.log twoPiF ff (some tF))),
+       ("log_evidence", optToJson floatToJson (fitLogEvidence Float.log twoPiF ff (some tF))),
+       ("log_likelihood_with_regularization",
+          optToJson floatToJson (fitLogLikelihoodWithRegularization Float.log twoPiF ff (some tF))),
+       ("inversion", invOut)]))
+
+def ops : List (String × Op) := [("c08.fit", fit)]
 
 end Driver.C08
 
